@@ -93,7 +93,7 @@ func c02Compare(c *rt.Ctx, sub int, cfg *decCfg, doc []byte, t reflect.Type, fea
 	}
 	if mismatch {
 		// explanatory predicates: known root causes that predict the disagreement exactly
-		if strings.HasPrefix(cfg.name, "Decoder") && !strings.Contains(cfg.name, "UseNumber") && bufferAgrees(doc, t, prepop, seed) {
+		if strings.HasPrefix(cfg.name, "Decoder") && !strings.Contains(cfg.name, "UseNumber") && !strings.Contains(cfg.name, "DisallowUnknownFields") && bufferAgrees(doc, t, prepop, seed) {
 			how := "value"
 			if gerr != nil && serr == nil {
 				how = "err-vs-ok:" + msgClass(gerr.Error())
